@@ -174,6 +174,16 @@ func genC02(env *core.Env, emit func(core.Case)) {
 			}
 			s4 := gen.Seal(plan.OuterBase, 0, sub, suite, pt, nil, 0x0301)
 			check("unmodified", "single-suite-config", []*gen.KeyMat{sub}, s4.Rec, false)
+			// ... also when ANOTHER held key, listed before or after, does offer that suite: the suite list
+			// that counts is the named config's own
+			wide := gen.NewKey(r, sub.ID+1+uint8(r.IntN(100)), "public.example", gen.AllSuites)
+			for _, other := range gen.AllSuites {
+				if other != suite {
+					s7 := gen.Seal(plan.OuterBase, r.IntN(len(plan.OuterBase.Exts)+1), sub, other, pt, nil, 0x0301)
+					check("suite-not-offered", "offered-by-an-earlier-key", []*gen.KeyMat{wide, sub}, s7.Rec, true)
+					check("suite-not-offered", "offered-by-a-later-key", []*gen.KeyMat{sub, wide}, s7.Rec, true)
+				}
+			}
 		}
 		// the extension names the id of one held key while the payload is sealed to another held key
 		{
@@ -198,5 +208,27 @@ func genC02(env *core.Env, emit func(core.Case)) {
 		plan2 := gen.Plan(r, o)
 		sealed2 := gen.Seal(plan2.OuterBase, 0, key, suite, plan2.Enc.Body(), nil, 0x0301)
 		edit("payload-from-other-hello", func(e *gen.ECHOuter) { e.Payload = sealed2.Payload; e.Enc = sealed2.Enc })
+	}
+	// the same binding on a retried hello: it is opened only if it names the config id and the cipher suite
+	// of the first one, carries no enc, and was sealed under the first hello's context
+	ridx := 0
+	for rep := 0; rep < env.Pick(3, 30); rep++ {
+		for _, rc := range retryCases(r) {
+			ridx++
+			s, first, rd := runRetryCase(rc, 70000)
+			w := ""
+			switch {
+			case first.Err != "-" || !first.Accepted:
+				w = "first hello of the retry history not accepted: " + first.Err
+			case rd.Err != rc.Class && !(rc.Class == "" && rd.Err == "-"):
+				w = fmt.Sprintf("retried hello of kind %s: outcome %s, want %q (%d bytes delivered to the backend)", rc.Kind, rd.Err, rc.Class, len(rd.Data))
+			case rc.Class != "" && len(rd.Data) != 0:
+				w = fmt.Sprintf("retried hello of kind %s was refused, but %d bytes of it reached the backend", rc.Kind, len(rd.Data))
+			}
+			s.X("a retried hello is opened only under the first hello's config id, cipher suite and context", w)
+			emit(core.Case{Name: fmt.Sprintf("retry/%d", ridx), Stream: "retry", Ops: s.Ops, Key: "retry-" + rc.Kind,
+				Sig: fmt.Sprintf("retry-%s/%s/%s", rc.Kind, rc.Mode, rd.Err), Sample: map[string]any{"mutator": "retry-" + rc.Kind, "mode": rc.Mode, "outcome": rd.Err}})
+			env.Count("retry/" + rc.Kind + "/" + rd.Err)
+		}
 	}
 }
